@@ -69,11 +69,21 @@ func (h faultHandler) guard(call func() error) error {
 	return call()
 }
 
-func (h faultHandler) Set(c common.SetRequest) error     { return h.guard(func() error { return h.Handler.Set(c) }) }
-func (h faultHandler) Add(c common.SetRequest) error     { return h.guard(func() error { return h.Handler.Add(c) }) }
-func (h faultHandler) Replace(c common.SetRequest) error { return h.guard(func() error { return h.Handler.Replace(c) }) }
-func (h faultHandler) Append(c common.SetRequest) error  { return h.guard(func() error { return h.Handler.Append(c) }) }
-func (h faultHandler) Prepend(c common.SetRequest) error { return h.guard(func() error { return h.Handler.Prepend(c) }) }
+func (h faultHandler) Set(c common.SetRequest) error {
+	return h.guard(func() error { return h.Handler.Set(c) })
+}
+func (h faultHandler) Add(c common.SetRequest) error {
+	return h.guard(func() error { return h.Handler.Add(c) })
+}
+func (h faultHandler) Replace(c common.SetRequest) error {
+	return h.guard(func() error { return h.Handler.Replace(c) })
+}
+func (h faultHandler) Append(c common.SetRequest) error {
+	return h.guard(func() error { return h.Handler.Append(c) })
+}
+func (h faultHandler) Prepend(c common.SetRequest) error {
+	return h.guard(func() error { return h.Handler.Prepend(c) })
+}
 func (h faultHandler) Delete(c common.DeleteRequest) error {
 	return h.guard(func() error { return h.Handler.Delete(c) })
 }
@@ -156,16 +166,36 @@ func (r faultResponder) guard(call func() error) error {
 	return call()
 }
 
-func (r faultResponder) Set(o uint32, q bool) error     { return r.guard(func() error { return r.Responder.Set(o, q) }) }
-func (r faultResponder) Add(o uint32, q bool) error     { return r.guard(func() error { return r.Responder.Add(o, q) }) }
-func (r faultResponder) Replace(o uint32, q bool) error { return r.guard(func() error { return r.Responder.Replace(o, q) }) }
-func (r faultResponder) Append(o uint32, q bool) error  { return r.guard(func() error { return r.Responder.Append(o, q) }) }
-func (r faultResponder) Prepend(o uint32, q bool) error { return r.guard(func() error { return r.Responder.Prepend(o, q) }) }
-func (r faultResponder) Get(x common.GetResponse) error { return r.guard(func() error { return r.Responder.Get(x) }) }
-func (r faultResponder) GetEnd(o uint32, n bool) error  { return r.guard(func() error { return r.Responder.GetEnd(o, n) }) }
-func (r faultResponder) GAT(x common.GetResponse) error { return r.guard(func() error { return r.Responder.GAT(x) }) }
-func (r faultResponder) Delete(o uint32) error          { return r.guard(func() error { return r.Responder.Delete(o) }) }
-func (r faultResponder) Touch(o uint32) error           { return r.guard(func() error { return r.Responder.Touch(o) }) }
+func (r faultResponder) Set(o uint32, q bool) error {
+	return r.guard(func() error { return r.Responder.Set(o, q) })
+}
+func (r faultResponder) Add(o uint32, q bool) error {
+	return r.guard(func() error { return r.Responder.Add(o, q) })
+}
+func (r faultResponder) Replace(o uint32, q bool) error {
+	return r.guard(func() error { return r.Responder.Replace(o, q) })
+}
+func (r faultResponder) Append(o uint32, q bool) error {
+	return r.guard(func() error { return r.Responder.Append(o, q) })
+}
+func (r faultResponder) Prepend(o uint32, q bool) error {
+	return r.guard(func() error { return r.Responder.Prepend(o, q) })
+}
+func (r faultResponder) Get(x common.GetResponse) error {
+	return r.guard(func() error { return r.Responder.Get(x) })
+}
+func (r faultResponder) GetEnd(o uint32, n bool) error {
+	return r.guard(func() error { return r.Responder.GetEnd(o, n) })
+}
+func (r faultResponder) GAT(x common.GetResponse) error {
+	return r.guard(func() error { return r.Responder.GAT(x) })
+}
+func (r faultResponder) Delete(o uint32) error {
+	return r.guard(func() error { return r.Responder.Delete(o) })
+}
+func (r faultResponder) Touch(o uint32) error {
+	return r.guard(func() error { return r.Responder.Touch(o) })
+}
 
 type faultComps struct {
 	protocol.Components
